@@ -614,6 +614,8 @@ class Run:
                 ro = MT.MosFile.from_string(s)
         except Exception as e:   # noqa
             self.add('C14.roundtrip', 'restart: re-reading str(ro) raised %s: %s' % (type(e).__name__, e), None, {'via': via})
+            if self.completed:
+                self.add('C07.roundtrip', 'restart: the completed running order cannot be read back (%s)' % type(e).__name__, None, {'via': via})
             return
         if type(ro) is not MT.RunningOrder:
             self.add('C07.roundtrip' if self.completed else 'C14.roundtrip',
